@@ -307,6 +307,11 @@ func runC05(c *Ctx) error {
 		for k := 0; k < nFaults; k++ {
 			faults[c.Rng.IntN(nFrames)] = kinds[c.Rng.IntN(len(kinds))]
 		}
+		if si%5 == 2 && nFrames >= 3 {
+			// fixed slot: a well-formed runt chunk whose body reads as a length prefix that covers the next,
+			// intact frame (what a reader that gives up on a short chunk after its prefix would do with it)
+			faults[1] = "inject-runt-with-length"
+		}
 		var held []byte
 		var replayAfterNext []byte
 		var sentChunks [][]byte
@@ -366,6 +371,9 @@ func runC05(c *Ctx) error {
 				}
 				g[0], g[1] = 0, byte(len(g))
 				res = append(res, g, out)
+			case "inject-runt-with-length":
+				l := len(out) + 4
+				res = append(res, []byte{0, 6, byte(l >> 8), byte(l), 0, 0}, out)
 			case "inject-short":
 				n := 4 + rng.IntN(24) // shorter than header + MAC
 				g := make([]byte, n)
